@@ -102,7 +102,7 @@ fn gen_value(rng: &mut Rng) -> MapSpec {
       None
     }
   };
-  let ns = many(rng).unwrap_or_else(|| rng.usize_below(4));
+  let ns = many(rng).unwrap_or_else(|| rng.usize_below(6));
   let sources: Vec<String> = if ns > 8 {
     (0..ns).map(|i| if i % 50 == 7 { nasty_string(rng, 3) } else { format!("s{}", i) }).collect()
   } else {
@@ -126,7 +126,7 @@ fn gen_value(rng: &mut Rng) -> MapSpec {
     let i = rng.usize_below(sources_content.len());
     sources_content[i] = big;
   }
-  let nn = many(rng).unwrap_or_else(|| rng.usize_below(3));
+  let nn = many(rng).unwrap_or_else(|| rng.usize_below(6));
   let opt = |rng: &mut Rng| if rng.chance(400) { Some(nasty_string(rng, 4)) } else { None };
   MapSpec {
     mappings: gen_mappings(rng),
@@ -163,7 +163,7 @@ fn gen_raw(rng: &mut Rng) -> Doc {
     fields.push(("version".into(), json!(3)));
   }
   let arr = |rng: &mut Rng, out: &mut Vec<String>| -> Value {
-    let n = rng.usize_below(4);
+    let n = rng.usize_below(6);
     let mut v = vec![];
     for _ in 0..n {
       if rng.chance(300) {
@@ -271,6 +271,50 @@ fn same_fields(m: &SourceMap, e: &MapSpec, after_own_serialisation: bool) -> Opt
     return Some(format!("sourcesContent {:?} != {:?}", m.sources_content(), expect_content));
   }
   None
+}
+
+/// The same strings with one entry boundary moved: a character moved from the
+/// end of one entry to the front of the next, or an empty entry swapped with
+/// its neighbour. `None` when no table allows it (or the tables are huge).
+fn near_twin(e: &MapSpec) -> Option<MapSpec> {
+  let mut t = e.clone();
+  let mut changed = false;
+  for table in [&mut t.names, &mut t.sources, &mut t.sources_content] {
+    if table.len() < 2 || table.len() > 64 {
+      continue;
+    }
+    for i in 0..table.len() - 1 {
+      if table[i].is_empty() != table[i + 1].is_empty() {
+        table.swap(i, i + 1);
+        changed = true;
+        break;
+      }
+      if let Some(c) = table[i].pop() {
+        table[i + 1].insert(0, c);
+        changed = true;
+        break;
+      }
+    }
+  }
+  changed.then_some(t)
+}
+
+/// A document for `e`, written with the independent serialiser.
+fn twin_document(e: &MapSpec) -> String {
+  let mut o = Map::new();
+  o.insert("version".into(), json!(3));
+  o.insert("sources".into(), json!(e.sources));
+  if !e.sources_content.is_empty() {
+    o.insert("sourcesContent".into(), json!(e.sources_content));
+  }
+  o.insert("names".into(), json!(e.names));
+  o.insert("mappings".into(), json!(e.mappings));
+  for (k, v) in [("file", &e.file), ("sourceRoot", &e.source_root), ("debugId", &e.debug_id)] {
+    if let Some(v) = v {
+      o.insert(k.into(), json!(v));
+    }
+  }
+  Value::Object(o).to_string()
 }
 
 fn strs(v: &Value) -> Option<Vec<String>> {
@@ -542,6 +586,35 @@ pub fn check_case(case: &C15Case) -> (Vec<Violation>, Counters) {
   counters.add("fault:eintr_read_fired", rstats.eintr);
   for r in [r1, r2, r3].into_iter().flatten() {
     bad(&r.0, &r.1, r.2);
+  }
+
+  // a near-twin document parsed while the first result is still alive: the
+  // same strings cut at other entry boundaries (or an empty entry moved by one
+  // slot) must give the twin's tables, not the first document's
+  if let Some(twin) = near_twin(&expect) {
+    let first = SourceMap::from_json(&j).ok();
+    let tj = twin_document(&twin);
+    let r = guard(&mut || match SourceMap::from_json(&tj) {
+      Ok(m) => same_fields(&m, &twin, false).map(|d| {
+        (
+          "roundtrip".into(),
+          "from_json".into(),
+          format!("a second document {:?}, parsed while the result of the first one was alive: {}", tj, d),
+        )
+      }),
+      Err(e) => Some(("parse_failed".into(), "from_json".into(), format!("from_json rejects the twin document {:?}: {}", tj, e))),
+    });
+    counters.inc("probe:near_twin_document_parsed_while_first_alive");
+    if let Some(r) = r {
+      bad(&r.0, &r.1, r.2);
+    }
+    // and the first value is still what it was
+    if let Some(m) = &first {
+      if let Some(d) = same_fields(m, &expect, own) {
+        bad("roundtrip", "from_json", format!("after parsing a near-twin document the first value changed: {}", d));
+      }
+    }
+    drop(first);
   }
 
   // crash-truncation and hard read errors
@@ -834,7 +907,7 @@ impl Property for C15Prop {
     (serde_json::to_value(&cur).unwrap(), from)
   }
   fn rule(&self) -> String {
-    "case = (document, writer plan, reader plan, fault offsets) from splitmix(VERIF_SEED, run index). 65% SourceMap values (30% of them with a setter history: the value, a clone and its Debug form are serialised once, then 1-3 setters are applied and the pipeline runs on the edited value) with strings over quotes, backslashes, C0 controls, DEL, U+2028/2029, BOM, 2-4-byte characters, optional fields present/absent, all-empty vs partly empty sourcesContent, a mappings member that is arbitrary text instead of VLQ in 25% of the values, tables of 31 .. 1028 entries (count next to a power of two) in 1% and of 65 535 .. 65 538 entries in 0.05% of the values; 35% hand-serialised documents with null entries, null tables, missing arrays, shuffled and unknown keys, whitespace. Pipeline: to_json -> independent serde_json check; to_writer through a fragmenting/EINTR writer -> file F must equal to_json byte for byte; from_json, from_slice, from_reader(fragmenting reader) must give the same fields; hard write error at k -> Err and F is the k-byte prefix; crash-truncation at k and hard read error at k -> Err, never Ok, never panic (k sampled in quick, every k in 10% of runs and in thorough; 1.5% of the values carry an 8-140 KiB sourcesContent entry, for which the offsets around 8 KiB / 64 KiB / 128 KiB boundaries are added). distinct_nontrivial = distinct documents with at least one non-default field.".into()
+    "case = (document, writer plan, reader plan, fault offsets) from splitmix(VERIF_SEED, run index). 65% SourceMap values (30% of them with a setter history: the value, a clone and its Debug form are serialised once, then 1-3 setters are applied and the pipeline runs on the edited value) with strings over quotes, backslashes, C0 controls, DEL, U+2028/2029, BOM, 2-4-byte characters, optional fields present/absent, all-empty vs partly empty sourcesContent, a mappings member that is arbitrary text instead of VLQ in 25% of the values, tables of 31 .. 1028 entries (count next to a power of two) in 1% and of 65 535 .. 65 538 entries in 0.05% of the values; 35% hand-serialised documents with null entries, null tables, missing arrays, shuffled and unknown keys, whitespace. Pipeline: to_json -> independent serde_json check; to_writer through a fragmenting/EINTR writer -> file F must equal to_json byte for byte; from_json, from_slice, from_reader(fragmenting reader) must give the same fields; a near-twin document (the same strings cut at other entry boundaries) parsed while the first result is alive must give its own tables; hard write error at k -> Err and F is the k-byte prefix; crash-truncation at k and hard read error at k -> Err, never Ok, never panic (k sampled in quick, every k in 10% of runs and in thorough; 1.5% of the values carry an 8-140 KiB sourcesContent entry, for which the offsets around 8 KiB / 64 KiB / 128 KiB boundaries are added). distinct_nontrivial = distinct documents with at least one non-default field.".into()
   }
   fn assumptions(&self) -> Vec<String> {
     vec![
